@@ -129,7 +129,17 @@ def _classed(out, gp, prog):
         if key is not None and key != 0:
             names.setdefault(abs(key), set()).add(str(name))
     single = any(s[0] == "rule" and len(set(l for l in s[2] if l[1][0] != "d")) == 1 for s in prog)
-    if any(len(v) > 1 for v in names.values()) or single:
+    # ... and a body literal that is implied by another literal of the same body (q(X) :- s(X), g2(X) with
+    # s(X) :- f1, g2(X)): the conjunction collapses onto the node of the stronger literal
+    bodies = {}
+    for st in prog:
+        if st[0] in ("rule", "ad") and st[2]:
+            heads = [st[1]] if st[0] == "rule" else [h for _, h in st[1]]
+            for h in heads:
+                bodies.setdefault(h[0], set()).update(l[1][0] for l in st[2])
+    implied = any(st[0] == "rule" and any(b[1][0] in bodies.get(a[1][0], ()) for a in st[2] for b in st[2] if a is not b)
+                  for st in prog)
+    if any(len(v) > 1 for v in names.values()) or single or implied:
         # (decided on the program as well: a clause whose body is, apart from the domain predicate d/1 and repeated
         # literals, a single literal makes its head another name of that literal's node)
         cls = "aliased-node"
